@@ -93,3 +93,116 @@ def vectors(n, alphabet):
 def sortedness(q):
     q = list(q)
     return 'sorted' if q == sorted(q) else 'unsorted'
+
+
+# --------------------------------------------------------------------------------------
+# structural enumeration of MPS / MPO layouts
+
+def bond_profiles(L, Ds):
+    """All interior bond-dimension profiles (D_1..D_{L-1}) over Ds."""
+    return itertools.product(Ds, repeat=max(L - 1, 0))
+
+
+def layouts(L, d, prof, alph, left_boundary=((0,),), right_alph=None, max_dev=None):
+    """
+    All charge layouts (qd, qD) for the given shape.  qd in alph^d, interior qD[i] in alph^{D_i},
+    qD[0] from left_boundary, qD[L] in right_alph^1.
+    max_dev: if given, only layouts with at most that many non-zero charge entries (deviation bound).
+    """
+    right_alph = alph if right_alph is None else right_alph
+    axes = [list(itertools.product(alph, repeat=d)), [tuple(b) for b in left_boundary]]
+    for D in prof:
+        axes.append(list(itertools.product(alph, repeat=D)))
+    axes.append([(r,) for r in right_alph])
+    for combo in itertools.product(*axes):
+        if max_dev is not None:
+            dev = sum(1 for part in combo for x in part if x != 0)
+            if dev > max_dev:
+                continue
+        qd = list(combo[0])
+        qD = [list(c) for c in combo[1:]]
+        yield qd, qD
+
+
+def mps_tensors(rng, qd, qD, kind):
+    """Site tensors A[i][s,l,r] obeying qd[s]+qD[i][l]-qD[i+1][r]==0, filled according to kind."""
+    qd = np.asarray(qd, dtype=np.int64)
+    A = []
+    for i in range(len(qD) - 1):
+        ql = np.asarray(qD[i], dtype=np.int64)
+        qr = np.asarray(qD[i + 1], dtype=np.int64)
+        A.append(_fill(rng, [qd, ql, -qr], kind, qr))
+    return A
+
+
+def mpo_tensors(rng, qd, qD, kind):
+    qd = np.asarray(qd, dtype=np.int64)
+    A = []
+    for i in range(len(qD) - 1):
+        ql = np.asarray(qD[i], dtype=np.int64)
+        qr = np.asarray(qD[i + 1], dtype=np.int64)
+        A.append(_fill(rng, [qd, -qd, ql, -qr], kind, qr))
+    return A
+
+
+def _fill(rng, qlists, kind, qright):
+    S = outer_sum(qlists)
+    if kind == 'complex':
+        T = generic(rng, S.shape, 'complex')
+    elif kind == 'real':
+        T = generic(rng, S.shape, 'real')
+    elif kind == 'neg':
+        T = -np.abs(generic(rng, S.shape, 'real'))
+    elif kind == 'int':
+        T = np.rint(3 * generic(rng, S.shape, 'real')).astype(np.int64)
+        T = np.where(T == 0, 1, T)
+    elif kind == 'ones':
+        T = np.ones(S.shape, dtype=np.int64)
+    elif kind == 'rankdef':
+        T = generic(rng, S.shape, 'complex')
+        # duplicate right-bond columns carrying the same charge -> rank-deficient bond
+        qright = np.asarray(qright)
+        for r in range(1, len(qright)):
+            same = np.where(qright[:r] == qright[r])[0]
+            if len(same):
+                T[..., r] = T[..., same[0]]
+    elif kind == 'zero':
+        T = np.zeros(S.shape)
+    else:
+        raise ValueError(kind)
+    return np.where(S == 0, T, 0)
+
+
+def reachable_alphabets(L, qd, q_left, q_right):
+    """For each bond i the set of charges reachable from the left boundary with i sites and from which the right
+    boundary charge is reachable with L-i sites (MPS rule: q_{i+1} = q_i + qd[s])."""
+    left = [{q_left}]
+    for _ in range(L):
+        left.append({q + s for q in left[-1] for s in qd})
+    right = [{q_right}]
+    for _ in range(L):
+        right.insert(0, {q - s for q in right[0] for s in qd})
+    return [sorted(a & b) for a, b in zip(left, right)]
+
+
+def sector_layouts(L, qd, prof, q_left=0, totals=None, extra=()):
+    """
+    Sector-consistent layouts: interior bond charges are drawn (all tuples: unsorted, repeated ...) from the reachable
+    alphabet of that bond, optionally extended by `extra` unreachable charges.  Yields (qd, qD).
+    """
+    qd = list(qd)
+    if totals is None:
+        tl = {q_left}
+        for _ in range(L):
+            tl = {q + s for q in tl for s in qd}
+        totals = sorted(tl)
+    for tot in totals:
+        alphs = reachable_alphabets(L, qd, q_left, tot)
+        axes = []
+        for i, D in enumerate(prof, start=1):
+            al = sorted(set(alphs[i]) | set(extra))
+            if not al:
+                al = [0]
+            axes.append(list(itertools.product(al, repeat=D)))
+        for combo in itertools.product(*axes):
+            yield qd, [[q_left]] + [list(c) for c in combo] + [[tot]]
